@@ -101,4 +101,191 @@ theorem toProto_field_json (syn : Nat) (f : FieldD) (h : f.isExtension = false) 
   simp only [toProtoField, h]
   cases f.p.jsonName <;> rfl
 
+/-! ### toProto ∘ newFile on a field, all clauses together
+
+FULL STATEMENT `toProto_newFile`: `newFile env p = .ok d → toProto d = normalize p`.
+Proved here: the field-level core, for EVERY field of every accepted file, under visible canonicity hypotheses
+(what `protoc` emits and what validation guarantees); the lifting to field lists, enums and oneofs follows.
+Missing for the file-level statement: the (routine, mutual) induction over the message tree that threads the
+hypotheses from `check env p = ok` — they are consequences of `resolveErr = none` and `validateField = ok`, except
+the canonicity ones (`number`/`label` present, field typed, editions spell REQUIRED/GROUP through features), which
+are exactly the normalisations and the lossy spellings refuted above. -/
+
+/-- **toProto_newFile (field level).** For a field that resolved (`resolveErr = none`), is typed and numbered, whose
+`proto3_optional` only occurs in proto3 (validated), and — under editions — spells `required`/`group` through
+features: `ToFieldDescriptorProto` of the built descriptor is the field proto itself. -/
+theorem toProto_buildField_partial (c : Ctx) (par : GoFeatures) (scope : Str) (me : Bool) (n i : Nat) (p : FieldP) (syn : Nat)
+    (hres : (buildField c par scope me n i p).resolveErr = none)
+    (hnum : p.number.isSome = true) (hlabel : p.label.isSome = true)
+    (htyped : 1 ≤ p.type ∧ p.type ≤ 18)
+    (hnoempty : p.typeName ≠ some [])
+    (hext : p.extendee = none)
+    (hdef : p.defaultOk = none → p.defaultLit = [])
+    (hp3 : p.proto3Optional = true → syn = 3)
+    (hreq : (fieldFeatures par p.features p.packed).isLegacyRequired = true → syn = 9 ∧ p.label = some cOptional)
+    (hreq2 : syn = 9 → p.label ≠ some cRequired)
+    (hdel : (fieldFeatures par p.features p.packed).isDelimitedEncoded = true → syn = 9)
+    (hgrp : p.type = kGroup → syn ≠ 9 ∧ (buildField c par scope me n i p).kind = kGroup) :
+    toProtoField syn (buildField c par scope me n i p) = p := by
+  obtain ⟨hone, t, hft⟩ := resolveErr_none_split c par scope me n i p hres
+  generalize hk0 : (if (p.type == kMessage && (fieldFeatures par p.features p.packed).isDelimitedEncoded) = true then kGroup else p.type) = k0 at hft
+  have hk0ne : k0 ≠ 0 := by
+    rw [← hk0]; split
+    · simp [kGroup]
+    · omega
+  obtain ⟨htk, hrefs⟩ := findTarget_ok c k0 _ t hft hk0ne
+  have hkind : (buildField c par scope me n i p).kind =
+      (if t.kind == kGroup && ((match t.messageT with | some m => m.isMapEntry | none => false) || me) then kMessage else t.kind) := by
+    simp only [buildField, hk0, hft] <;> rfl
+  cases p with
+  | mk name number label type typeName extendee oneofIndex jsonName p3 defOk defLit packed lazy feats =>
+    simp only at *
+    generalize hF : fieldFeatures par feats packed = F at *
+    generalize hK : (if (t.kind == kGroup && ((match t.messageT with | some m => m.isMapEntry | none => false) || me)) = true then kMessage else t.kind) = K at *
+    simp only [toProtoField, buildField, hk0, hft, hF, FieldP.mk.injEq, FieldD.number, FieldD.name, true_and]
+    -- the final kind K in terms of the declared type
+    have hKtype : (if (syn == 9 && (if (decide (1 ≤ K) && decide (K ≤ 18)) = true then K else 0) == kGroup) = true then kMessage
+        else if (decide (1 ≤ K) && decide (K ≤ 18)) = true then K else 0) = type := by
+      by_cases h11 : type = kMessage
+      · subst h11
+        by_cases hd : F.isDelimitedEncoded = true
+        · have hs := hdel hd
+          simp only [beq_self_eq_true, hd, Bool.and_self, ↓reduceIte] at hk0
+          subst hk0; subst hs
+          rw [htk] at hK
+          by_cases hx : ((match t.messageT with | some m => m.isMapEntry | none => false) || me) = true
+          · simp only [beq_self_eq_true, hx, Bool.and_self, ↓reduceIte] at hK
+            subst hK; simp [kMessage, kGroup]
+          · simp only [Bool.not_eq_true] at hx
+            simp only [hx, Bool.and_false, Bool.false_eq_true, ↓reduceIte] at hK
+            subst hK; simp [kMessage, kGroup]
+        · simp only [Bool.not_eq_true] at hd
+          simp only [hd, Bool.and_false, Bool.false_eq_true, ↓reduceIte] at hk0
+          subst hk0
+          rw [htk] at hK
+          simp [kMessage, kGroup] at hK
+          subst hK
+          simp [kMessage, kGroup]
+      · have hk0' : k0 = type := by
+          rw [← hk0]
+          have : (type == kMessage) = false := by simpa using h11
+          simp [this]
+        subst hk0'
+        by_cases h10 : k0 = kGroup
+        · obtain ⟨hs, hkk⟩ := hgrp h10
+          have hKg : K = kGroup := by rw [← hkind]; exact hkk
+          subst hKg
+          have : (syn == 9) = false := by simpa using hs
+          simp [this, h10, kGroup]
+        · rw [htk] at hK
+          have : (k0 == kGroup) = false := by simpa using h10
+          simp only [this, Bool.false_and, Bool.false_eq_true, ↓reduceIte] at hK
+          subst hK
+          have h1 : decide (1 ≤ k0) = true := by simpa using htyped.1
+          have h2 : decide (k0 ≤ 18) = true := by simpa using htyped.2
+          simp [h1, h2, this]
+    refine ⟨?_, ?_, (by rw [← hK] at hKtype; exact hKtype), ?_, ?_, ?_, ?_, ?_, ?_, ?_⟩
+    · cases number <;> simp_all
+    · cases label with
+      | none => simp at hlabel
+      | some l =>
+        by_cases hr : F.isLegacyRequired = true
+        · obtain ⟨hs, hl⟩ := hreq hr
+          subst hs
+          simp [cardinalityOf, hr, hl]
+        · simp only [Bool.not_eq_true] at hr
+          simp only [cardinalityOf, hr, Option.getD_some, Bool.not_false, Bool.true_and, Bool.false_eq_true, ↓reduceIte]
+          by_cases hs : syn = 9
+          · have := hreq2 hs
+            have hne : (l == cRequired) = false := by
+              simp only [beq_eq_false_iff_ne, ne_eq]
+              intro h; exact this (by rw [h])
+            simp [hne]
+          · have : (syn == 9) = false := by simpa using hs
+            simp [this]
+    · -- typeName
+      by_cases he : k0 = kEnum
+      · simp only [he, ↓reduceIte] at hrefs
+        obtain ⟨⟨r, hr, hfn⟩, hm, full, hfull⟩ := hrefs
+        simp only [hm, hr, Option.map_some, hfn]
+        cases typeName with
+        | none => simp at hfull
+        | some x => simp
+      · by_cases hm : k0 = kMessage ∨ k0 = kGroup
+        · simp only [he, ↓reduceIte, hm] at hrefs
+          obtain ⟨⟨r, hr, hfn⟩, _, full, hfull⟩ := hrefs
+          simp only [hr, hfn]
+          cases typeName with
+          | none => simp at hfull
+          | some x => simp
+        · simp only [he, ↓reduceIte, hm] at hrefs
+          obtain ⟨h1, h2, h3⟩ := hrefs
+          simp only [h1, h2, Option.map_none]
+          cases typeName with
+          | none => rfl
+          | some x => simp at h3; subst h3; exact absurd rfl hnoempty
+    · simp [hext]
+    · cases oneofIndex with
+      | none => rfl
+      | some k =>
+        obtain ⟨h0, h1⟩ := hone k rfl
+        have : (decide (0 ≤ k) && decide (k < (n : Int))) = true := by simp [h0, h1]
+        simp [this, Int.toNat_of_nonneg h0]
+    · cases jsonName <;> rfl
+    · by_cases h3 : syn = 3
+      · subst h3; simp [hasOptionalKeyword, editionProto3, editionProto2]
+      · have : (syn == 3) = false := by simpa using h3
+        simp only [this, Bool.false_and]
+        cases p3 with
+        | false => rfl
+        | true => exact absurd (hp3 rfl) h3
+    · cases defOk <;> rfl
+    · cases defOk with
+      | none => simp [hdef rfl]
+      | some b => simp
+
+/-- … hence for every field list (`initFieldsFromDescriptorProto` + `resolveMessageDependencies`), any length. -/
+theorem toProto_buildFields_partial (c : Ctx) (par : GoFeatures) (scope : Str) (me : Bool) (n : Nat) (syn : Nat)
+    (ps : List FieldP) (i0 : Nat)
+    (h : ∀ p ∈ ps, ∀ i, toProtoField syn (buildField c par scope me n i p) = p) :
+    (buildFields c par scope me n i0 ps).map (toProtoField syn) = ps := by
+  induction ps generalizing i0 with
+  | nil => rfl
+  | cons p rest ih =>
+    simp only [buildFields, List.map_cons, List.cons.injEq]
+    exact ⟨h p (by simp) i0, ih (i0 + 1) (fun q hq i => h q (by simp [hq]) i)⟩
+
+/-- enums are copied; the only normalisation is that an absent value number is written as 0 -/
+theorem toProto_buildEnum (par : GoFeatures) (scope : Str) (e : EnumP) (h : ∀ v ∈ e.values, v.number.isSome = true) :
+    toProtoEnum (buildEnum par scope e) = e := by
+  cases e with
+  | mk name values rr rn alias feats =>
+    simp only [toProtoEnum, buildEnum, EnumP.mk.injEq, true_and, and_true]
+    simp only at h
+    induction values with
+    | nil => rfl
+    | cons v vs ih =>
+      simp only [List.map_cons, List.cons.injEq]
+      refine ⟨?_, ih (fun w hw => h w (by simp [hw]))⟩
+      have := h v (by simp)
+      cases v with
+      | mk vn vnum => cases vnum <;> simp_all
+
+/-- oneof declarations are copied -/
+theorem toProto_buildOneofs (scope : Str) (fds : List FieldD) (os : List OneofP) (i : Nat) :
+    (buildOneofs scope fds i os).map (·.p) = os := by
+  induction os generalizing i with
+  | nil => rfl
+  | cons o rest ih => simp [buildOneofs, ih]
+
+/-- file header: syntax "proto2" is written as absent, everything else is copied (edition only under editions) -/
+theorem toProto_header (env : Env) (p : FileP) :
+    (toProto (build env p)).path = p.path ∧ (toProto (build env p)).pkg = p.pkg ∧
+    (toProto (build env p)).features = p.features ∧
+    (toProto (build env p)).syn = (if p.syn = 3 then 3 else if p.syn = 9 then 9 else 0) ∧
+    (p.syn = 9 → (toProto (build env p)).edition = p.edition) := by
+  refine ⟨rfl, rfl, rfl, ?_, ?_⟩
+  · simp [toProto, build]
+  · intro h; simp [toProto, build, fileEdition, h]
+
 end C34
